@@ -230,6 +230,7 @@ def converge(n0: int, sigs: List[int], tape: List[int], early: List[int], st: Li
     quiet = CASE["quiet"]
     K = KS.Kernel(tape=tape, early=early, statuses=[STATUS_SET[s] for s in st],
                   master_signals=[SIGS[s] for s in sigs], budget=len(sigs) + len(tape) + quiet)
+    K.deaf_first_term = bool(CASE.get("deaf"))      # every child loses the first SIGTERM it is sent (still booting)
     arb = mk_arbiter(K, n0, timeout=CASE["timeout"])
     undo = KS.install(A, K)
     A.sock = ns("A.sock", close_sockets=lambda l, u=True: None)
